@@ -92,6 +92,14 @@ def main(argv=None):
                 n_viol += 1
                 print(f"VIOLATION property={prop} replay={r.replay}")
                 print(f"  unit={r.name} counterexample={r.counterexample}")
+    # findings listed for this property that no unit of this run reaches (crash points inside the stdlib queue, half-sent
+    # messages, ...): still printed, marked as recorded-only
+    for k in known:
+        if not any(line.startswith(k["id"] + " ") for line in printed):
+            line = (f"{k['id']} {k['what']} [recorded in known_findings.json; outside the bounds of the registered "
+                    f"checks of {prop}, not re-examined by this run]")
+            printed.add(line)
+            print(f"KNOWN-FINDING: property={prop} {line}")
     level = getattr(pm, "LEVEL", "other")
     write_evidence(prop, a.tier, seed, level, results, time.time() - t0, n_viol,
                    getattr(pm, "EXPLANATION", ""), getattr(pm, "ASSUMPTIONS", ()))
